@@ -8,6 +8,7 @@ three places where the engine reads a *set* of rows whose listing order is arbit
 import Mistral.Lemmas.Engine
 import Mistral.Props.C05
 import Mistral.Props.C05Causal
+import Mistral.Props.C05Final
 
 namespace Mistral.Props.C02
 open Mistral Mistral.Engine Mistral.Join
@@ -86,10 +87,10 @@ theorem verdict_order_independent (w1 w2 : World) (hwf : w1.wf = w2.wf) (hp : w1
 theorem merge_order_independent (a b : Ctx.Ctx) (k0 : String) (rest : List String)
     (hk : k0 ≠ "__task_execution") (ha : Hist.ShapeOK k0 rest a) (hb : Hist.ShapeOK k0 rest b)
     (hcons : ∀ va vb, Hist.getPath a.data k0 rest = some va → Hist.getPath b.data k0 rest = some vb →
-      Ctx.ver a.vers (Hist.keyOf k0 rest) = Ctx.ver b.vers (Hist.keyOf k0 rest) → va = vb) :
+      Ctx.ver a.vers (Hist.keyOf (Ctx.esc k0) rest) = Ctx.ver b.vers (Hist.keyOf (Ctx.esc k0) rest) → va = vb) :
     Hist.getPath (Ctx.mergeByVersion a b).data k0 rest = Hist.getPath (Ctx.mergeByVersion b a).data k0 rest ∧
-    Ctx.ver (Ctx.mergeByVersion a b).vers (Hist.keyOf k0 rest) =
-      Ctx.ver (Ctx.mergeByVersion b a).vers (Hist.keyOf k0 rest) :=
+    Ctx.ver (Ctx.mergeByVersion a b).vers (Hist.keyOf (Ctx.esc k0) rest) =
+      Ctx.ver (Ctx.mergeByVersion b a).vers (Hist.keyOf (Ctx.esc k0) rest) :=
   Mistral.Props.C05.merge_order_independent_partial a b k0 rest hk ha hb hcons
 
 /-- ... nor on how a join with three or more inbound tasks groups them (no tie hypothesis) -/
@@ -114,5 +115,16 @@ theorem published_data_order_independent (h1 h2 : List Hist.Task)
       Hist.Publishes k0 t' → q' = qs ∨ Hist.Anc h1 q' qs) :
     Hist.leafAt r1.inb.data k0 rest = Hist.leafAt r2.inb.data k0 rest :=
   Mistral.Props.C05Causal.visible_order_independent h1 h2 s k0 rest hk hs i r1 r2 hr1 hr2 qs ts hq hts hp hmax
+
+/-- ... for a join with ANY number of inbound tasks (and for the workflow's final context over any number of
+    end tasks read in batches of any size): listing the rows in another order shows the same leaf at every path at
+    which the rows are consistent (re-export of C05Final.join_rows_order_independent / final_batch_size_independent) -/
+theorem join_rows_order_independent (k0 : String) (rest : List String) (hk : k0 ≠ "__task_execution")
+    (l1 l2 : List Ctx.Ctx) (hp : l1.Perm l2) (hs : ∀ c ∈ l1, Hist.ShapeOK k0 rest c)
+    (hcons : ∀ c1 ∈ l1, ∀ c2 ∈ l1, ∀ x1 x2, Hist.getPath c1.data k0 rest = some x1 →
+      Hist.getPath c2.data k0 rest = some x2 →
+      Ctx.ver c1.vers (Hist.keyOf (Ctx.esc k0) rest) = Ctx.ver c2.vers (Hist.keyOf (Ctx.esc k0) rest) → x1 = x2) :
+    Hist.getPath (Ctx.upstream l1).data k0 rest = Hist.getPath (Ctx.upstream l2).data k0 rest :=
+  Mistral.Props.C05Final.join_rows_order_independent k0 rest hk l1 l2 hp hs hcons
 
 end Mistral.Props.C02
